@@ -1,11 +1,68 @@
-(* Corr/C04.v -- correspondence interface for validate_structure on an abstract store dump. *)
+(* Corr/C04.v -- correspondence interface for validate_structure on an abstract store dump.
+   IValidate: the verdict on the abstract tree.  IValidateJ: additionally the RAW metadata document (attrs["geff"] as JSON) is judged
+   by the metadata model of Meta.v (`construct`, the model of GeffMetadata.model_validate proved about in C07/C08): its verdict must be
+   the validity bit carried by the tree (which the harness computes with an independent reading of the specification) -- so the bit the
+   validator model consumes is tied to the Coq metadata model, to the specification predicate and, through the oracle, to the library. *)
 From Geff Require Export Base Dtype Vlen Tree Validate.
+From Geff Require Meta.
 Open Scope list_scope.
+Open Scope string_scope.
 
-Inductive input := IValidate (k : skind) (s : option znode).
+Notation JNull := Meta.JNull.
+Notation JBool := Meta.JBool.
+Notation JInt := Meta.JInt.
+Notation JFlt := Meta.JFlt.
+Notation JStr := Meta.JStr.
+Notation JList := Meta.JList.
+Notation JObj := Meta.JObj.
+Notation Fin := Meta.Fin.
+Notation PInf := Meta.PInf.
+Notation NInf := Meta.NInf.
+Notation NaN := Meta.NaN.
+
+Inductive input := IValidate (k : skind) (s : option znode)
+                 | IValidateJ (k : skind) (s : option znode) (gv : string) (doc : Meta.jv).
 Inductive obs := OVal (r : res unit).
-Definition model (i : input) : obs := match i with IValidate k s => OVal (validate_structure k s) end.
+Definition tree_of (i : input) : skind * option znode := match i with IValidate k s | IValidateJ k s _ _ => (k, s) end.
+Definition model (i : input) : obs := let (k, s) := tree_of i in OVal (validate_structure k s).
 Definition unit_eqb (a b : unit) : bool := true.
 Definition obs_eqb (a b : obs) : bool := match a, b with OVal x, OVal y => res_eqb unit_eqb x y end.
-Definition check (c : input * obs) : bool := obs_eqb (model (fst c)) (snd c).
-Definition diag (c : input * obs) : list bool := [check c].
+
+(* the validity bit of the root's geff attribute: Some true = valid document, Some false = present but invalid *)
+Definition geff_bit (s : option znode) : option bool :=
+  match s with
+  | Some (ZG a _) => match alookup "geff" a with
+                     | Some (AGeff (Some _)) => Some true
+                     | Some (AGeff None) => Some false
+                     | _ => None
+                     end
+  | _ => None
+  end.
+(* what the stored smeta says, against the metadata object Meta.construct builds from the raw document *)
+Definition names_agree (m : smeta) (mm : Meta.metadata) : bool :=
+  Bool.eqb (md_directed m) (Meta.md_directed mm) &&
+  list_eqb String.eqb (map fst (md_nprops m)) (map fst (Meta.md_node_props mm)) &&
+  list_eqb String.eqb (map fst (md_eprops m)) (map fst (Meta.md_edge_props mm)) &&
+  list_eqb Bool.eqb (map (fun kv => pm_varlength (snd kv)) (md_nprops m)) (map (fun kv => Meta.pm_varlength (snd kv)) (Meta.md_node_props mm)) &&
+  list_eqb Bool.eqb (map (fun kv => pm_varlength (snd kv)) (md_eprops m)) (map (fun kv => Meta.pm_varlength (snd kv)) (Meta.md_edge_props mm)) &&
+  match md_axes m, Meta.md_axes mm with
+  | None, None => true
+  | Some a, Some b => list_eqb String.eqb (map ax_name a) (map Meta.ax_name b)
+  | _, _ => false
+  end.
+Definition doc_agrees (s : option znode) (gv : string) (doc : Meta.jv) : bool :=
+  match s with
+  | Some (ZG a _) =>
+      match alookup "geff" a, Meta.construct gv doc with
+      | Some (AGeff (Some m)), Ok mm => names_agree m mm
+      | Some (AGeff None), Err _ => true
+      | _, _ => false
+      end
+  | _ => false
+  end.
+Definition diag (c : input * obs) : list bool :=
+  match fst c with
+  | IValidate _ _ => [obs_eqb (model (fst c)) (snd c)]
+  | IValidateJ k s gv doc => [obs_eqb (model (fst c)) (snd c); doc_agrees s gv doc]
+  end.
+Definition check (c : input * obs) : bool := forallb (fun b => b) (diag c).
